@@ -213,6 +213,19 @@ class _Builder:
         self.vectors.append({"from": a, "to": b, "e": [_noise(self.draw, self.sd["coord"], self.noise) for _ in range(3)]})
 
 
+def _dir_or_angle(draw, B, s, ref, pid):
+    """the horizontal angle at s between ref and pid: two readings of a direction set, or (one time in three) an <angle>
+    observation with the new point as foresight or as backsight"""
+    k = draw(st.integers(0, 5))
+    if k == 0:
+        B.add(s, "angle", bs=ref, fs=pid)
+    elif k == 1:
+        B.add(s, "angle", bs=pid, fs=ref)
+    else:
+        B.add(s, "direction", to=ref)
+        B.add(s, "direction", to=pid)
+
+
 @st.composite
 def determined_network(draw, noise=1, dims=None, free=False, allow_cov=True, all_axes=True,
                        n_max=8, omit=True, heights_dh=True, isotropic=False, only_recipe=None, stretch=True):
@@ -271,19 +284,27 @@ def determined_network(draw, noise=1, dims=None, free=False, allow_cov=True, all
             if rec_xy in ("polar", "traverse"):
                 s = known[-1] if rec_xy == "traverse" else draw(st.sampled_from(known))
                 refs = [k for k in known if k != s]
-                ref = draw(st.sampled_from(refs))
-                B.add(s, "direction", to=ref)
-                B.add(s, "direction", to=pid)
-                B.add(s, "distance", to=pid)
+                # a traverse station sights back to the previous point of the chain
+                ref = known[-2] if (rec_xy == "traverse" and len(known) >= 2 and draw(st.booleans())) else draw(st.sampled_from(refs))
+                _dir_or_angle(draw, B, s, ref, pid)
+                if draw(st.booleans()):
+                    B.add(s, "distance", to=pid)
+                else:
+                    B.add(pid, "distance", to=s)
                 xy_station = s
             elif rec_xy == "intersection":
                 s1, s2 = draw(st.permutations(known))[:2]
                 for s in (s1, s2):
                     refs = [k for k in known if k != s]
-                    B.add(s, "direction", to=draw(st.sampled_from(refs)))
-                    B.add(s, "direction", to=pid)
-                # a third element keeps the intersection determined when P is near the line s1-s2
-                B.add(s1, "distance", to=pid)
+                    _dir_or_angle(draw, B, s, draw(st.sampled_from(refs)), pid)
+                # a third element keeps the intersection determined when P is near the line s1-s2; with a good
+                # intersection angle it is left out half of the time (forward intersection proper)
+                pm = {q["id"]: q for q in P}
+                a1 = math.atan2(pm[s1]["E"] - p["E"], pm[s1]["N"] - p["N"])
+                a2 = math.atan2(pm[s2]["E"] - p["E"], pm[s2]["N"] - p["N"])
+                gamma = abs((a1 - a2 + math.pi) % (2 * math.pi) - math.pi)
+                if not (math.radians(30) < gamma < math.radians(150)) or draw(st.booleans()):
+                    B.add(s1, "distance", to=pid)
             elif rec_xy == "trilateration":
                 for s in draw(st.permutations(known))[:3]:
                     if draw(st.booleans()):
@@ -342,6 +363,13 @@ def determined_network(draw, noise=1, dims=None, free=False, allow_cov=True, all
         B.recipes.append((pid, rec_xy, rec_z))
         p["recipe"] = [rec_xy, rec_z]
         known.append(pid)
+    if only_recipe == "traverse" and has_xy and len(P) > nfix and draw(st.booleans()):
+        # close the traverse on a fixed point: angle at the last point between the previous point and the end point,
+        # and the distance to the end point
+        last, prev_, end = P[-1]["id"], (P[-2]["id"] if len(P) >= 2 else ids[0]), ids[0]
+        if end not in (last, prev_):
+            _dir_or_angle(draw, B, last, prev_, end)
+            B.add(last, "distance", to=end)
     # redundant observations between determined points
     nred = draw(st.integers(0, 2 * n)) if not only_recipe else 0
     for _ in range(nred):
